@@ -442,4 +442,7 @@ def run(ctx, led):
     run_rule(led, "T12", "is_mutually_exclusive_with is sound, so extract_core does not panic on consistent assumptions (shared with C05-A12)", _pr.mutex_sound, ctx)
     from . import protocol as _proto
     run_rule(led, "T14", "PROTOCOL: SolutionIterator reports Unsatisfiable only before, and Finished only after, it handed out a solution (finite abstraction of its flag fields)", _proto.iterator_protocol, ctx)
+    from . import C01 as _C01
+    run_rule(led, "T15", "a solution is declared only when no domain is unassigned, and the scan for one covers every domain (shared with C01-S3/S3c): a partial solution panics when it is read", _C01.s3, ctx)
+    run_rule(led, "T16", "the fallback scan covers every domain (shared with C01-S3c)", _C01.s3c, ctx)
     run_rule(led, "T13", "a stored solution claims exactly the variables that existed when it was taken", t_contains, ctx, res)
